@@ -12,9 +12,21 @@ if os.path.exists(SRC + '/matrix.tsv'):
             matrix[f[0]][f[1]] = (f[2], f[3] if len(f) > 3 else '')
 os.makedirs(DST, exist_ok=True)
 rows = []
-for d in sorted(glob.glob(SRC + '/C??/[0-9]')):
+import re
+def own_detect(d):
+    """results of bin/mutdetect.sh runs kept next to the change: detect.<P>.log"""
+    out = {}
+    for f in glob.glob(os.path.join(d, 'detect.*.log')):
+        P = os.path.basename(f).split('.')[1]
+        txt = open(f, errors='replace').read()
+        nv = len(re.findall(r'^VIOLATION', txt, re.M))
+        cls = ','.join(sorted(set(re.findall(r'class=(\S+)', txt)))[:3])
+        out[P] = {'exit': '1' if nv else ('2' if 'HARNESS FAULT' in txt else '0'), 'classes': cls}
+    return out
+
+for d in sorted(glob.glob(SRC + '/C??/[0-9]')) + sorted(glob.glob('/tmp/mut2/C??/[0-9]')):
     prop = os.path.basename(os.path.dirname(d)); n = os.path.basename(d)
-    mid = '%s-%s' % (prop, n)
+    mid = '%s-%s' % (prop, n) if d.startswith(SRC + '/') else '%s-r2-%s' % (prop, n)
     out = os.path.join(DST, mid)
     os.makedirs(out, exist_ok=True)
     for fn in ('patch.diff', 'demo.c', 'README.md'):
@@ -31,6 +43,10 @@ for d in sorted(glob.glob(SRC + '/C??/[0-9]')):
         ver = [l.strip() for l in open(os.path.join(d, 'verify.result')) if l.startswith('RESULT')]
         ver = ver[-1] if ver else ''
     det = {p: {'exit': rc, 'classes': cls} for p, (rc, cls) in sorted(matrix.get(mid, {}).items())}
+    latest = own_detect(d)           # re-runs after the checks were strengthened supersede the matrix row
+    for P, v in latest.items():
+        if P not in det or v['exit'] == '1':
+            det[P] = v
     meta.update({
         'id': mid,
         'breaks_property': prop,
